@@ -28,6 +28,10 @@ pub struct Case {
     /// belongs to that hop's URL and no other field is lost
     #[serde(default)]
     pub caller_host: u8,
+    /// no proxy can be reached (connection refused): the request fails at the first hop that belongs to a proxy, and that
+    /// hop is not sent anywhere else instead
+    #[serde(default)]
+    pub proxy_refuses: bool,
 }
 
 pub struct C10;
@@ -93,9 +97,9 @@ non-trivial = >= 2 hops with a non-empty body, or a hop that changes authority o
             prop_oneof![1 => Just(None), 1 => proxy_spec().prop_map(Some)],
             proptest::collection::vec(0u8..6, 0..3),
             proptest::collection::vec(prop::bool::weighted(0.3), 6),
-            prop_oneof![4 => Just(0u8), 1 => Just(1u8), 1 => Just(2u8)],
+            (prop_oneof![4 => Just(0u8), 1 => Just(1u8), 1 => Just(2u8)], prop::bool::weighted(0.12)),
         )
-            .prop_map(|(method, mut urls, statuses, ops, body, http_proxy, https_proxy, no_proxy, flips, caller_host)| {
+            .prop_map(|(method, mut urls, statuses, ops, body, http_proxy, https_proxy, no_proxy, flips, (caller_host, proxy_refuses))| {
                 // some hops keep the host of the previous hop and change only the scheme (the proxy choice depends on both)
                 for i in 1..urls.len() {
                     if flips[i] && !matches!(urls[i - 1].host, HostSpec::V6(_)) {
@@ -115,6 +119,7 @@ non-trivial = >= 2 hops with a non-empty body, or a hop that changes authority o
                     https_proxy,
                     no_proxy,
                     caller_host,
+                    proxy_refuses,
                 }
             })
             .boxed()
@@ -139,6 +144,7 @@ non-trivial = >= 2 hops with a non-empty body, or a hop that changes authority o
             }
         }
         let responses2 = responses.clone();
+        let _refuse = crate::props::c08::refuse_proxy_connections(case.proxy_refuses);
         let (_guard, net) = install_router(move |_, idx| responses2.get(idx).cloned().unwrap_or_else(|| b"HTTP/1.1 200 OK\r\nContent-Length: 0\r\n\r\n".to_vec()), "good");
 
         let mut pb = attohttpc::ProxySettings::builder();
@@ -172,6 +178,26 @@ non-trivial = >= 2 hops with a non-empty body, or a hop that changes authority o
         }
         let kind = case.body.name();
         let exs = exchanges(&net);
+        if case.proxy_refuses {
+            let proxied_hop = (0..n_hops).find(|i| !bypass(&case.urls[*i].host_text(), &entries) && select(&case.urls[*i], &case.http_proxy, &case.https_proxy).is_some());
+            if let Some(k) = proxied_hop {
+                ctx.nontrivial = true;
+                ctx.label("no-proxy-can-be-reached");
+                let dials: Vec<String> = exs.iter().map(|e| format!("{}:{}", e.dial.host, e.dial.port)).collect();
+                if let Ok(r) = &sent.result {
+                    return Outcome::fail("C10:proxy-unreachable:response", format!("hop {k} belongs to a proxy that refuses connections, yet send() returned a {} response; connections: {dials:?}", r.status()));
+                }
+                if exs.len() != k + 1 {
+                    return Outcome::fail("C10:proxy-unreachable:went-elsewhere", format!("hop {k} belongs to a proxy that refuses connections; {} connections were attempted: {dials:?}", exs.len()));
+                }
+                let p = select(&case.urls[k], &case.http_proxy, &case.https_proxy).unwrap().as_url_spec();
+                let d = &exs[k].dial;
+                if d.host.to_ascii_lowercase() != p.host_text() || d.port != p.effective_port() {
+                    return Outcome::fail("C10:proxy-unreachable:dial", format!("hop {k}: connection attempted to {}:{}, the proxy is {}:{}", d.host, d.port, p.host_text(), p.effective_port()));
+                }
+                return Outcome::Pass;
+            }
+        }
         if let Err(e) = &sent.result {
             let t: Vec<_> = exs.iter().filter_map(|e| e.tls_error.clone()).collect();
             return Outcome::fail(format!("C10:send-failed:{kind}"), format!("{e:?} after {} exchanges (tls errors {t:?})", exs.len()));
